@@ -80,13 +80,10 @@ theorem consumeUnicode_spec (inp : List Nat) (pos : Nat) :
         · rename_i low p2 h2
           have hp2 := (consumeUnicodeLiteral_spec inp p1).2 low p2 h2
           split
-          · simp only
-            split
-            · refine ⟨(fun h => by cases h), ?_⟩
-              intro ch p h
-              simp only [LexOutcome.ok.injEq, Prod.mk.injEq] at h
-              omega
-            · exact ⟨(fun h => by cases h), (fun v p h => by cases h)⟩
+          · refine ⟨(fun h => by cases h), ?_⟩
+            intro ch p h
+            simp only [LexOutcome.ok.injEq, Prod.mk.injEq] at h
+            omega
           · exact ⟨(fun h => by cases h), (fun v p h => by cases h)⟩
       · exact ⟨(fun h => by cases h), (fun v p h => by cases h)⟩
 
